@@ -204,7 +204,11 @@ class Scores:
 
     @property
     def hard_ratio(self) -> float:
-        return 1.0 - self.easy_ratio
+        if self.nb_easy_samples > 0:
+            # Not 1 - easy_ratio, which cancels when easy samples dominate
+            return self.nb_hard_samples / self.nb_all_samples
+        else:
+            return 1.0
 
     @staticmethod
     def from_labels(
@@ -506,8 +510,10 @@ class Scores:
             raise ValueError("Cannot set threshold at TOPR without any values.")
         # See explanation at threshold_at_tonr()
         easy_pos_to_total_ratio = self.nb_easy_pos / self.nb_all_samples
+        all_top = np.asarray(topr, dtype=float) >= 1.0  # Rescaling below must not round this away
         topr = np.maximum(np.asarray(topr, dtype=float) - easy_pos_to_total_ratio, 0.0)
         topr = np.minimum(topr / self.hard_ratio, 1.0)
+        topr = np.maximum(topr, all_top * 1.0)
         return self._threshold_at_ratio(
             concat_scores, topr, False, BinaryLabel.pos, method
         )
@@ -534,8 +540,10 @@ class Scores:
         # threshold at 50% TONR on the 10% of data for which we have scores, since
         # 85% - 80% = 5% is 50% of the 10% data with scores (5% / 10%).
         easy_neg_to_total_ratio = self.nb_easy_neg / self.nb_all_samples
+        all_ton = np.asarray(tonr, dtype=float) >= 1.0  # Rescaling below must not round this away
         tonr = np.maximum(np.asarray(tonr, dtype=float) - easy_neg_to_total_ratio, 0.0)
         tonr = np.minimum(tonr / self.hard_ratio, 1.0)
+        tonr = np.maximum(tonr, all_ton * 1.0)
         return self._threshold_at_ratio(
             concat_scores, tonr, True, BinaryLabel.neg, method
         )
